@@ -5,7 +5,7 @@ sentence is delimited by the marker below and replaced on every run."""
 import json, re, os, sys
 root = os.path.dirname(os.path.dirname(os.path.abspath(__file__)))
 tg = json.load(open(os.path.join(root, 'tools/trans_targets.json')))
-M0, M1 = ' [Regenerated tie, wave 8: ', ']'
+M0, M1 = ' [Regenerated tie (go2lean): ', ']'
 for pid, targets in tg.items():
     if not re.fullmatch(r'C\d\d', pid): continue
     p = os.path.join(root, 'tools/manifest_src', pid + '.json')
@@ -27,6 +27,7 @@ for pid, targets in tg.items():
         txt += '; translated and executed by trans-diff but not yet tied by a theorem: ' + ', '.join(f'{f}:{n}' for f, n, _ in untied)
     s = d.get('level_text', '')
     s = re.sub(re.escape(M0) + r'.*?' + re.escape(M1), '', s, flags=re.S)
+    s = re.sub(re.escape(' [Regenerated tie, wave 8: ') + r'.*?' + re.escape(M1), '', s, flags=re.S)
     d['level_text'] = s.rstrip() + M0 + txt + M1
     tech = d.get('technique', '')
     if 'go2lean' not in tech:
